@@ -16,6 +16,7 @@ import (
 type vFM struct {
 	d       *pb.Digest
 	present bool // expected verdict (symbolic): locally present with the stated size, or vouched for by the backend
+	local   bool // locally present with the stated size
 }
 
 // vFindMissing: a request of k digests over a cache with up to 2 CAS entries
@@ -60,6 +61,7 @@ func vFindMissingX(maxK int, withProxy bool, filler int, workers int, shape bool
 			f.d = &pb.Digest{Hash: emptySha256, SizeBytes: 0}
 			f.present = true
 		}
+		f.local = f.present
 		if withProxy && kind != 3 {
 			f.present = vsym.Or(f.present, vsym.And(d.px.hasByHash[f.d.Hash], f.d.SizeBytes <= c.maxProxyBlobSize))
 		}
@@ -80,7 +82,9 @@ func vFindMissingX(maxK int, withProxy bool, filler int, workers int, shape bool
 	if filler > 0 {
 		// one more symbolic digest after the batch edge
 		if shape {
-			addDigest(3 * vsym.Choose("tail", 2)) // H0 with a symbolic stated size, or the empty blob
+			// H0 with a symbolic stated size, the empty blob, or once more the
+			// digest only the backend may have (with its own stated size)
+			addDigest([]int{0, 3, 2}[vsym.Choose("tail", 3)])
 		} else {
 			addDigest(vsym.Choose("tail", 3))
 		}
@@ -103,6 +107,8 @@ func vFindMissingX(maxK int, withProxy bool, filler int, workers int, shape bool
 		} else {
 			vsym.Reach("findmissing-reported-present")
 			vsym.Assert(f.present, "findmissing/C10-absent-blob-not-reported-missing")
+			// nothing larger than max_proxy_blob_size is present on the strength of the backend
+			vsym.Assert(vsym.Or(f.local, f.d.SizeBytes <= c.maxProxyBlobSize), "findmissing/C18-oversize-blob-reported-present-through-the-backend")
 		}
 	}
 	vsym.Assert(j == len(res), "findmissing/C10-result-is-a-subsequence-of-the-request-in-order")
@@ -111,6 +117,9 @@ func vFindMissingX(maxK int, withProxy bool, filler int, workers int, shape bool
 	vsym.Assert(c.lru.currentSize == st.cur0 && c.lru.reservedSize == st.res0, "findmissing/C03-accounting-unchanged")
 	if !withProxy {
 		vsym.Assert(vsym.Quiesce() == 0, "findmissing/C14-no-goroutine-left")
+	} else {
+		// only the permanent backend-check workers remain
+		vsym.Assert(vsym.Quiesce() == workers, "findmissing/C14-request-leaves-no-goroutine-behind")
 	}
 	// C05: the most recently looked-up indexed key is at the front
 	last := ""
